@@ -72,6 +72,7 @@ def cases(rng, tier):
             c['L'] = rng.choice([1, 2, 3, 4])
         else:
             c['L'] = rng.choice([1, 2, 3, 4, 5, 6, 7]); c['ftype'] = rng.choice(['c', 'a', 'create', 'annihil'])
+        _magnitude(rng, c)
         out.append(c)
     # correspondence-only cases (no dense reference): every model for L in 1..7, parameters with zeros / ones / sign changes
     m = {'quick': 140, 'thorough': 700, 'search': 0}[tier]
@@ -85,8 +86,22 @@ def cases(rng, tier):
             c['d'] = rng.choice([1, 2, 3, 4, 5])
         if model == 'linferm':
             c['ftype'] = rng.choice(['c', 'a', 'creation', 'annihilation'])
+        _magnitude(rng, c)
         out.append(c)
     return out
+
+
+def _magnitude(rng, c):
+    """magnitude regimes (powers of two: exact): all parameters tiny / large, or one parameter far below the others"""
+    u = rng.random()
+    if u < 0.12:
+        k = rng.choice([-40, -30, -27, 24])
+        c['p'] = [x * 2.0 ** k for x in c['p']]
+        c['mag'] = k
+    elif u < 0.2:
+        i = rng.randrange(3)
+        c['p'][i] = c['p'][i] * 2.0 ** -30
+        c['mag1'] = i
 
 
 def build(case):
@@ -98,6 +113,7 @@ def build(case):
             co = rs.integers(-2, 3, size=L) + 1j * rs.integers(-2, 3, size=L)
             if not np.any(co):
                 co[0] = 1
+            co = co * 2.0 ** case.get('mag', 0)
             return ptn.linear_fermionic_mpo(co, case['ftype']), None, 2
         f = {'ising': lambda: ptn.ising_mpo(L, *p), 'xxz': lambda: ptn.heisenberg_xxz_mpo(L, *p), 'xxz1': lambda: ptn.heisenberg_xxz_spin1_mpo(L, *p),
              'bose': lambda: ptn.bose_hubbard_mpo(case['d'], L, *p), 'fermi': lambda: ptn.fermi_hubbard_mpo(L, *p)}[m]
@@ -116,6 +132,7 @@ def build(case):
     co = rs.integers(-2, 3, size=L) + 1j * rs.integers(-2, 3, size=L)
     if not np.any(co):
         co[0] = 1
+    co = co * 2.0 ** case.get('mag', 0)
     create = case['ftype'] in ('c', 'create', 'creation')
     return ptn.linear_fermionic_mpo(co, case['ftype']), HR.linear_fermionic(co, create), 2
 
@@ -227,13 +244,14 @@ def impl(case):
         if not np.any(co):
             co[0] = 1
         base['coeff'] = [[int(c.real), int(c.imag)] for c in co]
+        base['cmag'] = int(case.get('mag', 0))      # the coefficients handed to the constructor are these times 2^cmag
     if ref is None:
         base['graphonly'] = True
         return base
     M = G.mpo_dense(H.A)
     Msp = H.as_matrix(sparse_format=True).toarray() if H.nsites >= 1 else M
     Mpt = H.as_matrix()
-    scale = 1.0 + float(np.linalg.norm(ref))
+    scale = float(np.linalg.norm(ref)) or 1.0
     base.update({'err': float(np.linalg.norm(M - ref)) / scale, 'err_asmatrix': float(np.linalg.norm(Mpt - ref)) / scale,
                  'err_sparse': float(np.linalg.norm(Msp - ref)) / scale,
                  'herm': float(np.linalg.norm(M - M.conj().T)) / scale, 'refnorm': float(np.linalg.norm(ref))})
@@ -341,7 +359,7 @@ def coq(case, r):
                 'opmap_eqb (R := QIring) ising_opmap %s && match bond_dims g with Some ws => nat_list_eqb ws %s | None => false end') % (
             g, E.nat(a['L']), E.nat(L), p[0], p[1], p[2], E.nat(L), _aut(a), E.zlist(fog['qd']), _opmap(fog['opmap']), E.natlist(r['dims']))
     # linear fermionic
-    co = E.lst([C5.qi_lit(Fraction(a), Fraction(b)) for a, b in r['coeff']])
+    co = E.lst([C5.qi_lit(Fraction(a) * Fraction(2) ** r.get('cmag', 0), Fraction(b) * Fraction(2) ** r.get('cmag', 0)) for a, b in r['coeff']])
     create = case['ftype'] in ('c', 'create', 'creation')
     return 'let g := %s in check_linferm (R := QIring) %s %s %s g %s && hyp_ok g && zlist_eqb [0; 1] %s' % (
         g, co, E.boolean(create), _opmap(fog['opmap']), E.natlist(r['dims']), E.zlist(fog['qd']))
@@ -357,7 +375,7 @@ def coq_diag(case, r):
         p = [_q(x) for x in case['p']]
         return 'from_automaton_r (@ising_autop QIring %s %s %s) %s' % (p[0], p[1], p[2], E.nat(L))
     if m == 'linferm' and 'coeff' in r:
-        return 'linferm_build (R := QIring) %s %s' % (E.lst([C5.qi_lit(Fraction(a), Fraction(b)) for a, b in r['coeff']]),
+        return 'linferm_build (R := QIring) %s %s' % (E.lst([C5.qi_lit(Fraction(a) * Fraction(2) ** r.get('cmag', 0), Fraction(b) * Fraction(2) ** r.get('cmag', 0)) for a, b in r['coeff']]),
                                                       E.boolean(case['ftype'] in ('c', 'create', 'creation')))
     return 'true'
 
